@@ -53,6 +53,7 @@ func init() {
 	wrap("C19", func(c *Ctx) { c03R11as(c, "C19-R10") }, "R10 (added, F-C19-3 = F-C03-3): a background refresh of an unscoped entry carries no client subnet (same rule as C03-R11).")
 	wrap("C01", func(c *Ctx) { c02R15as(c, "C01-R22") }, "R22 (added, red wave 5): the alias chase folds the target reply's AD into the outer reply before every return of it — AD only when every part of the reply validated (same rule as C02-R15).")
 	wrap("C02", func(c *Ctx) { c01R15as(c, "C02-R16") }, "R16 (added, red wave 5): an NSEC/NSEC3 signature is never accepted through wildcard reconstruction — a wildcard's denial record re-owned to another name proves nothing (same rule as C01-R15).")
+	wrap("C19", func(c *Ctx) { c03R12as(c, "C19-R16") }, "R16 (added, red wave 6): the scope a scoped insert is filed under keeps a declared length and the address of one declared prefix (same rule as C03-R12).")
 	wrap("C20", func(c *Ctx) { c04R11as(c, "C20-R11") }, "R11 (added, F-C20-3 = F-C04-1): DNS64 tells a zero negative TTL from a missing SOA (same rule as C04-R11).")
 	wrap("C13", c13R9, "R9 (added): Resolver.lookup gives up on a zone's remaining servers only for NXDOMAIN — after a failing reply is recorded, every path to the fallback verdict (which the caller turns into a zone failure) goes round the server loop again or crosses Rcode == NameError.")
 	wrap("C13", c13Extra, "R8 (added): a stored failure is turned into a hit (failureEntry.hit) only behind now.Before(<that entry>.retryAfter) — on the Msg and the wire lookup alike — so suppression ends with the backoff.")
